@@ -150,6 +150,23 @@ def instance_injections(ver, o, rng):
         yield "prebuilt-instance-with-custom-content", section, path, inst
 
 
+def reference_object_injections(ver, o, rng):
+    """A reference given as a library object (not an id string) of a registered custom type: the reference is custom content
+    exactly as the id string 'x-stixmon-widget--...' would be."""
+    g = ObjGen(rng, ver, hostile=False, ts_max_digits=6)
+    cls = gcustom.ensure_registered()[(ver, "object")]
+    try:
+        with warnings.catch_warnings():
+            warnings.simplefilter("ignore")
+            inst = cls(**gcustom.widget(g, "min"))
+    except Exception:
+        return
+    sl, objects = corrupt.slots(ver, o)
+    for s in sl:
+        if s.kind["k"] == "ref" and isinstance(corrupt.get(o, s.path), str) and "observable" not in s.section:
+            yield "reference-given-as-object-of-custom-type", s.section, s.path, inst
+
+
 def substitute(o, path, inst):
     """kwargs for the host constructor: o with the nested dictionary at `path` replaced by the library object"""
     kw = copy.deepcopy(o)
@@ -262,7 +279,7 @@ def wl_inject(ctx, rng, i):
         # pre-built instances with custom content handed to the host constructor
         cls = cls_for(ver, t)
         if cls is not None:
-            for site, section, path, inst in instance_injections(ver, o, rng):
+            for site, section, path, inst in list(instance_injections(ver, o, rng)) + list(reference_object_injections(ver, o, rng)):
                 case = {"version": ver, "type": t, "site": site, "section": section, "nested_path": [str(p) for p in path], "input": o}
                 kw = substitute(o, path, inst)
                 st, r = run(lambda: cls(allow_custom=False, **kw))
@@ -333,8 +350,8 @@ def wl_registered(ctx, rng, i):
 
 
 WORKLOADS = [
-    Workload("inject", wl_inject, quick=lambda: len(BASES) * 2, thorough=lambda: len(BASES) * 12),
-    Workload("registered", wl_registered, quick=60, thorough=600),
+    Workload("inject", wl_inject, quick=lambda: len(BASES) * 2, thorough=lambda: len(BASES) * 200),
+    Workload("registered", wl_registered, quick=60, thorough=6000),
 ]
 
 
